@@ -488,7 +488,7 @@ M('newlogfile-D13-shape', ['C13', 'C14'], RL, "return RollLogFile(int(ts * 1_000
 
 # ------------------------------------------------------------------------------------------------------ round 4 seeds
 M('seed4-C02-subscribe-prefix-without-delimiter', ['C02', 'C03'], Z, "sub.setsockopt_string(zmq.SUBSCRIBE, (src if src.startswith('_') else TOPIC_DELIM + src) + TOPIC_DELIM)", "sub.setsockopt_string(zmq.SUBSCRIBE, src if src.startswith('_') else TOPIC_DELIM + src)", ['C02.R5', 'C03.R11'])
-M('seed4-C05-xpub-nodrop', ['C05'], Z, "            pub.setsockopt(zmq.SNDHWM, ZMQ_PUB_HWM)\n", "            pub.setsockopt(zmq.SNDHWM, ZMQ_PUB_HWM)\n            pub.setsockopt(zmq.XPUB_NODROP, 1)\n", ['C05.R8'])
+M('seed4-C05-xpub-nodrop', ['C05'], Z, "                pub.setsockopt(zmq.SNDHWM, ZMQ_PUB_HWM)\n", "                pub.setsockopt(zmq.SNDHWM, ZMQ_PUB_HWM)\n                pub.setsockopt(zmq.XPUB_NODROP, 1)\n", ['C05.R8'])
 M('pub-hwm-unbounded', ['C05'], Z, "            pub.setsockopt(zmq.SNDHWM, ZMQ_PUB_HWM)\n", "", ['C05.R8'])
 M('push-blocking-send', ['C05'], Z, "self.push.send_multipart([json_dumps(msg0, separators=(',', ':')).encode(), *msg_], zmq.DONTWAIT)", "self.push.send_multipart([json_dumps(msg0, separators=(',', ':')).encode(), *msg_])", ['C05.R8'])
 M('seed4-C06-request-new-mark-leaks', ['C05', 'C06'], Z, "                if not sender.conn:\n                    msg_req['new'] = True\n                elif 'new' in msg_req:\n                    del msg_req['new']\n", "                if not sender.conn:\n                    msg_req['new'] = True\n", ['C05.R6', 'C06.R7'])
@@ -810,3 +810,16 @@ M('d90-only-exceptions-announced-as-errors', ['C08'], F, "                      
 M('d91-exit-in-shutdown-always-let-through', ['C08'], F, "                                if in_flight is None or isinstance(in_flight, Filter.Exit):\n                                    raise\n", "                                raise\n", ['C08.R1b'])
 M('d91-what-ended-the-loop-not-remembered', ['C08'], F, "                        except BaseException as exc:\n                            in_flight = exc\n\n                            raise\n\n                        finally:\n                            try:", "                        finally:\n                            try:", ['C08.R1b'])
 M('d92-duplicate-topic-error-leaves-the-sets', ['C04'], Z, "                                self.new_recv()  # the set is dropped with the error", "                                pass  # the set is dropped with the error", ['C04.R13'])
+M('seed12-C13-budget-raised-to-one-file-size', ['C13'], RL, "        self.total_size  = total_size\n", "        self.total_size  = max(total_size, file_size)  # there is always room for one full log file\n", ['C13.R17'])
+M('d93-head-kept-relative', ['C14'], RL, "        self.head        = head = None if head is None else os.path.abspath(head)  #", "        self.head        = head  #", ['C14.R12'])
+M('seed12-C14-bare-head-name-saved-next-to-log-dir', ['C14'], RL, "        self.head        = head = None if head is None else os.path.abspath(head)  #", "        self.head        = head if head is None or os.path.dirname(head) else os.path.join(os.path.dirname(path), head)  #", ['C14.R12'])
+M('seed12-C06-no-request-to-source-with-half-set', ['C06'], Z, "            for sender in sendervs:\n                if sender.ephemeral:\n                    msg_req['eph'] = sender.ephemeral", "            for sender in sendervs:\n                if sender.got == 'some':\n                    continue\n\n                if sender.ephemeral:\n                    msg_req['eph'] = sender.ephemeral", ['C06.R19'])
+M('seed12-C01-send-state-kept-until-consumed', ['C01'], MQ, "        topicmsgs, self.send_state = res\n", "        topicmsgs, send_state = res\n\n        if self.send_state is None:\n            self.send_state = send_state\n", ['C01.R18'])
+M('d95-half-bound-publisher-not-torn-down', ['C08'], Z, "        except BaseException:  # an address that can not be bound", "        except ZeroDivisionError:  # an address that can not be bound", ['C08.R12'])
+M('d95-half-bound-publisher-error-swallowed-not-destroyed', ['C08'], Z, "        except BaseException:  # an address that can not be bound (its request port taken, ...): what was bound so far is released here, nobody else holds the half built object and its ports would stay taken until it is collected\n            self.destroy()\n", "        except BaseException:  # an address that can not be bound (its request port taken, ...): what was bound so far is released here, nobody else holds the half built object and its ports would stay taken until it is collected\n            pass\n", ['C08.R12'])
+M('d94-local-deadline-stamped-with-todays-offset', ['C08'], UTL, "    return dt if utc or dt.tzinfo is not tz else dt.replace(tzinfo=None).astimezone()  #", "    return dt  #", ['C08.R8'])
+M('seed12-C08-deadline-today-from-the-local-date', ['C08'], UTL, "        dt = datetime.now(tz).replace(hour=0, minute=0, second=0, microsecond=0)\n", "        dt = datetime.combine(datetime.today(), datetime.min.time(), tzinfo=tz)\n", ['C08.R8'])
+M('seed12-C05-topics-message-takes-the-subscription-template', ['C05', 'C01'], Z, "            elif topic:\n                recvd = {**recvd_new, topic: msg}\n            else:\n                recvd = recvd_new.copy()\n", "            else:\n                recvd = {**recvd_new, topic: msg} if topic else recvd_new\n", ['C05.R14', 'C01.R8'])
+M('seed12-C09-shape-data-default-is-one-shared-dict', ['C09'], FR, "        data:   Union[dict, 'Frame', None] = None,\n        format: Union[str, 'Frame', None] = None,\n    ):\n        if isinstance(image, dict):", "        data:   Union[dict, 'Frame', None] = {},\n        format: Union[str, 'Frame', None] = None,\n    ):\n        if isinstance(image, dict):", ['C09.R15'])
+M('seed12-C12-shape-probe-answer-read-off-the-class-hierarchy', ['C12'], CLI, '    if (filter_type := filter_cls.FILTER_TYPE) == "Input":\n        return True\n', '    if (can_do := getattr(filter_cls, "_can_do_filter_outputs", None)) is not None:\n        return can_do\n\n    if (filter_type := filter_cls.FILTER_TYPE) == "Input":\n        return True\n', ['C12.R15'])
+M('seed12-C15-tcp-port-pattern-takes-password-for-port', ['C15'], Z, "TCP_RE_ADDR           = re.compile(r'^(.*?)(?::(\\d+))?$')", "TCP_RE_ADDR           = re.compile(r'^(.*?)(?::([^:/\\]]+))?$')", ['C15.R8'])
